@@ -109,3 +109,13 @@ claim("C08",
       "(definition + both adjoints, small shapes) which is labelled bounded and not counted as proved.",
       "scipy.signal.convolve/correlate not modelled deductively: the definition/adjoint clause is bounded-only (D<=2 (+one 3-D), lengths<=5, strides<=3).",
       "contract-based deductive verification of the shape arithmetic (symbolic execution, z3) + bounded run-time contract check for the sums")
+
+claim("C18",
+      "The real poisson() is executed symbolically (image/calibration extents, accel, tol symbolic; the numba kernel replaced by its contract): on every "
+      "returning path the mask is binary, has the requested shape/dtype, |nx*ny/sum(mask)-accel| < tol for exactly the returned mask, the calibration block "
+      "survives corner cropping whenever n - calib >= 2 (known finding otherwise), for calib = 0 no sample lies outside the inscribed ellipse, the global RNG "
+      "state is saved first and restored before returning; every non-returning path raises ValueError. Static obligations on _poisson: the mask is only "
+      "ever written with the constant 1, seeded from the argument; poisson reads no other global state.",
+      "Termination of the bisection is NOT proved (a non-termination defect was found by the bounded probe and fixed); numba RNG separate from numpy's (assumed, probed); "
+      "non-empty mask and calib < extent preconditions.",
+      "contract-based deductive verification (symbolic execution with one generic loop iteration, static frame obligations, z3) + bounded native probe")
